@@ -16,6 +16,7 @@ import (
 	"pgregory.net/rapid"
 
 	asv1 "github.com/pingcap/advanced-statefulset/client/apis/apps/v1"
+	"github.com/pingcap/advanced-statefulset/client/apis/apps/v1/helper"
 
 	"verifharness/sim"
 )
@@ -39,6 +40,9 @@ type Ev struct {
 	Set  int   `json:"set"` // which set for set events: 0 A, 1 B, 2 C
 	// worker steps: outcomes, true = the reconcile fails
 	Outcomes []bool `json:"outcomes,omitempty"`
+	// EarlyExit (worker steps): after the drawn outcomes one more reconcile succeeds without doing anything -
+	// 1 the set has been paused, 2 the set is gone from the cache - and must clear the backoff all the same
+	EarlyExit int `json:"early_exit,omitempty"`
 }
 
 type C16Case struct {
@@ -106,6 +110,10 @@ func genC16(rt *rapid.T) C16Case {
 				k := rapid.IntRange(1, 5).Draw(rt, "nsteps")
 				for j := 0; j < k; j++ {
 					e.Outcomes = append(e.Outcomes, rapid.Bool().Draw(rt, "fails"))
+				}
+				if rapid.IntRange(0, 2).Draw(rt, "earlyExit") == 0 {
+					e.Outcomes = append(e.Outcomes, true) // make sure there is a backoff to clear
+					e.EarlyExit = rapid.IntRange(1, 2).Draw(rt, "earlyExitKind")
 				}
 			}
 		}
@@ -389,7 +397,7 @@ func runC16(rep Rep, cs C16Case) {
 			}
 			checkBounds(rep, []string{"set-add", "set-update", "set-delete", "set-delete-tombstone"}[e.Kind-5], w.drain(), one(key), one(key))
 		case 9:
-			w.workerSteps(rep, e.Outcomes)
+			w.workerSteps(rep, e.Outcomes, e.EarlyExit)
 		}
 	}
 	rep.FP(worldFPAny(cs))
@@ -401,7 +409,7 @@ func runC16(rep Rep, cs C16Case) {
 // workerSteps drives real worker steps on set A with drawn outcomes: a failing reconcile must
 // bump the key's requeue counter by exactly one and bring the key back (after its backoff), a
 // succeeding one must clear the counter.
-func (w *c16World) workerSteps(rep Rep, outcomes []bool) {
+func (w *c16World) workerSteps(rep Rep, outcomes []bool, earlyExit int) {
 	c := w.c
 	// a queue of the same kind with a fast rate limiter: long runs of failures must not take minutes of
 	// real backoff (the controller's own limiter reaches 82 s after 15 failures)
@@ -450,6 +458,38 @@ func (w *c16World) workerSteps(rep Rep, outcomes []bool) {
 			prev = 0
 			q.Add(key)
 		}
+	}
+	if earlyExit != 0 && prev > 0 {
+		// the key comes back after its backoff; meanwhile the set was paused / deleted: the reconcile has nothing to
+		// do and succeeds, which clears the backoff like any success
+		deadline := time.Now().Add(10 * time.Second)
+		for q.Len() == 0 && time.Now().Before(deadline) {
+			time.Sleep(time.Millisecond)
+		}
+		var saved *asv1.StatefulSet
+		if earlyExit == 1 {
+			c.UpdateSet(NS, "web", func(x *asv1.StatefulSet) { helper.SetPausedReconcile(x, true) })
+		} else {
+			saved = c.Set(NS, "web")
+			c.Remove(sim.GVRASts, NS, "web")
+		}
+		c.RefreshAll()
+		if q.Len() == 0 {
+			q.Add(key)
+		}
+		c.Ctrl().VerifProcessNextWorkItem()
+		if n := q.NumRequeues(key); n != 0 {
+			rep.Violate("worker/success-not-forgotten", "after %d failures the set was %s; the next reconcile has nothing to do and succeeds, but the requeue counter stays at %d", prev, map[int]string{1: "paused", 2: "deleted"}[earlyExit], n)
+		}
+		rep.Label("worker:success-by-early-exit")
+		prev = 0
+		if earlyExit == 1 {
+			c.UpdateSet(NS, "web", func(x *asv1.StatefulSet) { helper.SetPausedReconcile(x, false) })
+		} else if saved != nil {
+			saved.ResourceVersion = ""
+			c.Put(saved)
+		}
+		c.RefreshAll()
 	}
 	// wait out a pending delayed re-add so that nothing leaks into the next event
 	if prev > 0 {
